@@ -196,9 +196,10 @@ func (s *side) run() {
 	s.hsOK = true
 	s.rPeer = sc.RemotePeer()
 	s.rKey = sc.RemotePublicKey()
-	wait := 5 * time.Second
+	// every side of a run waits a different time, so that no two tasks wake at the same virtual instant
+	wait := 5*time.Second + s.timeout/100
 	if !s.init {
-		wait = 6 * time.Second
+		wait += time.Second
 	}
 	exchange(sc, wait, s.role, s.partner.role, &s.wrote, &s.dataOK, &s.dataBogus)
 	sc.Close()
@@ -381,6 +382,14 @@ func (s *side) accepts(t ident) bool {
 	return s.expectID == pidOf(t)
 }
 
+// derive is peer.IDFromPublicKey that survives a missing key.
+func derive(k crypto.PubKey) (peer.ID, error) {
+	if k == nil {
+		return "", errors.New("nil public key")
+	}
+	return peer.IDFromPublicKey(k)
+}
+
 // judgeAuth: clauses 1 and 2 of the statement for one side.
 func judgeAuth(o *common.Outcome, s *side, what string) {
 	if !s.hsOK {
@@ -388,9 +397,9 @@ func judgeAuth(o *common.Outcome, s *side, what string) {
 	}
 	pr, rl := protoName(s.p.tls), roleName(s.init)
 	want := pidOf(s.truth)
-	derived, err := peer.IDFromPublicKey(s.rKey)
+	derived, err := derive(s.rKey)
 	switch {
-	case s.rKey == nil || err != nil:
+	case err != nil:
 		o.Violate("C01/remote-key-missing/"+pr+"/"+rl, "%s: %s completed but RemotePublicKey() is unusable (%v)", what, s.role, err)
 	case derived != s.rPeer:
 		o.Violate("C01/remote-peer-not-derived-from-key/"+pr+"/"+rl, "%s: %s reports RemotePeer()=%s but RemotePublicKey() derives %s", what, s.role, nameOf(s.rPeer), nameOf(derived))
@@ -450,7 +459,7 @@ func judge(o *common.Outcome, s *session, what string) {
 		judgeEarly(o, x, what)
 		if x.mustFail != "" && x.success() {
 			o.Violate("C01/altered-handshake-accepted/"+protoName(x.p.tls)+"/"+roleName(x.init)+"/"+x.mustFail,
-				"%s: %s completed the handshake (%s) although it received handshake data that was %s (%s)", what, x.role, x.outcome(), x.mustFail, s.m.note)
+				"%s: %s completed the handshake (%s) although the handshake data it received had been subjected to Mallory's %q: %s", what, x.role, x.outcome(), x.mustFail, s.m.note)
 		}
 	}
 	// doc of noise.Prologue: "The handshake will only complete successfully if both parties set the same prologue."
